@@ -52,18 +52,24 @@ def write_trace(built, tps, nticks):
     from eudoxia.workload import Workload
     from eudoxia.workload.csv_io import CSVWorkloadWriter, WorkloadTraceGenerator
 
+    emitted = []
+
     class Fixed(Workload):
         def __init__(self):
             self.t = 0
         def run_one_tick(self):
             ps = [p for tick, p, _ in built if tick == self.t]
             self.t += 1
+            emitted.extend(ps)
             return ps
 
     buf = io.StringIO()
     w = CSVWorkloadWriter(buf)
-    for row in WorkloadTraceGenerator(Fixed(), tps, nticks / tps).generate_rows():
+    # run length: half a tick beyond the last tick wanted, so that the generator's own int(duration * tps) cannot fall short of `nticks`
+    # (29/100 s at 100 ticks/s is 28 ticks in floating point); the comparison below is against what the workload actually handed out
+    for row in WorkloadTraceGenerator(Fixed(), tps, (nticks + 0.5) / tps).generate_rows():
         w.write_row(row)
+    write_trace.emitted = emitted
     return buf.getvalue()
 
 
@@ -126,9 +132,18 @@ def viol(ctx, clause, what, case):
 def roundtrip(ctx, drv, rng):
     tps = rng.choice([1, 10, 100, 1000])
     spec = gen_spec(rng, rng.randint(1, 6))
+    return roundtrip_case(ctx, drv, tps, spec)
+
+
+def roundtrip_case(ctx, drv, tps, spec):
+    spec = [(prio, tick, [tuple(o) for o in ops]) for prio, tick, ops in spec]
     nticks = max(t for _, t, _ in spec) + 1
     built = build(spec)
     text = write_trace(built, tps, nticks)
+    handed_out = {id(p) for p in write_trace.emitted}
+    if len(handed_out) != len(built):
+        # the harness failed to make the generator ask for every tick: not a statement about the round trip
+        raise RuntimeError(f"harness: the trace generator asked the workload for {len(handed_out)} of {len(built)} pipelines")
     ctx.coverage["evaluations"] += 1
     case = {"tps": tps, "spec": spec, "file": text[:1500]}
     try:
@@ -234,4 +249,14 @@ def run(ctx):
 
 
 def replay(ctx, rep):
-    run(ctx)
+    """re-run exactly the recorded case (a round trip) or, for the hand-made files, the whole malformed set"""
+    case = rep.get("case") or {}
+    drv = Driver()
+    try:
+        if "spec" in case:
+            roundtrip_case(ctx, drv, case["tps"], case["spec"])
+        else:
+            malformed(ctx, drv, random.Random(ctx.seed))
+    finally:
+        drv.close()
+    ctx.coverage["rule"] = "replay of one recorded case"
